@@ -140,6 +140,9 @@ pub fn check_outcomes(w: &WorldInner, a: &Analysis, run: &RunResult, tcfg: &Trac
             for ((&slot, g), exp) in slots.iter().zip(&rt.groups).zip(&expected) {
                 let (Some(wid), Expected::Awaited) = (g.wire, exp) else { continue };
                 let Some((at, kind)) = w.tcp_outcome_of_wire(wid) else { continue };
+                if matches!(kind, crate::world::RespKind::TcpError(_)) {
+                    continue;
+                }
                 let sent = w.wires[wid].t;
                 let in_time = at.saturating_sub(sent) + 2 * rt_ns < crate::sim::ns(tcfg.tcp_connect_timeout);
                 let before_publish = at + 3 * rt_ns < round.t_publish;
